@@ -467,6 +467,25 @@ def _contours(case, ctx):
         OrContour(model, max(alpha, 5e-3), sample=smp, deg_step=15, allowed_error=0.1)
     except IndexError:
         ctx.count("c19.or-no-contour-skipped")
+    # alpha handed over as the caller holds it - a 0-d or length-1 ndarray (np.loadtxt of one number, np.squeeze) - with
+    # default grid / sample settings: the caller's object is not modified and repeating the call gives the same contour
+    a_hdc = float(min(max(alpha, 0.02), 0.1))
+    for holder in (np.array(a_hdc), np.array([a_hdc])):
+        for label, mk in (
+            ("HighestDensityContour(alpha ndarray, default limits)", lambda h: HighestDensityContour(model, h, deltas=[(hi - lo) / 30 for lo, hi in lims]).coordinates),
+            ("IFORMContour(alpha ndarray)", lambda h: IFORMContour(model, h, n_points=12).coordinates),
+            ("ISORMContour(alpha ndarray)", lambda h: ISORMContour(model, h, n_points=12).coordinates),
+        ):
+            try:
+                with warnings.catch_warnings():
+                    warnings.simplefilter("ignore")
+                    r1 = mk(holder)
+                    r2 = mk(holder)
+            except (TypeError, ValueError, IndexError) as e:
+                ctx.count(f"c19.alpha-holder-rejected[{type(e).__name__}]")
+                continue
+            ctx.check("c19.arrays-unchanged", bool(np.all(np.asarray(holder) == a_hdc)), f"{label}: the caller's alpha object was modified", entry=label, now=np.asarray(holder).ravel().tolist(), was=a_hdc)
+            ctx.check("c19.repeatable", _equal(r1, r2), f"{label}: repeating the call gives a different contour", entry=label)
     con = IFORMContour(model, alpha, n_points=24)
     _twice(ctx, "calculate_design_conditions", lambda: virocon.calculate_design_conditions(con, steps=5))
     _twice(ctx, "calculate_design_conditions(swap)", lambda: virocon.calculate_design_conditions(con, steps=[float(np.mean(con.coordinates[:, 1]))], swap_axis=True))
